@@ -37,6 +37,10 @@ const SimrtPath = "github.com/New-JAMneration/JAM-Protocol/internal/zzverif/simr
 type Options struct {
 	Yield    bool // scheduler seams
 	MapOrder bool // range-over-map seam
+	Pool     bool // sync.Pool seam: p.Get() / p.Put(x) go through simrt.PoolGet / simrt.PoolPut (which pooled object is handed out is a tape decision)
+	// LoopYieldAll: every `for` / `range` body in the file starts with a yield (needs Yield)
+	LoopYieldAll bool
+	MinPool      int
 	// MinSites: the rewriter must have produced at least this many seams of each kind, else error
 	// ("an expected site is missing because the source was refactored").
 	MinLock, MinSelect, MinGo, MinMap int
@@ -129,7 +133,7 @@ func Load(repoDir, pkgDir, overlayPath string, env []string) (*Package, error) {
 
 // Counts reports what the rewriter did to a file.
 type Counts struct {
-	Lock, Yield, Select, Go, Map, Woke int
+	Lock, Yield, Select, Go, Map, Woke, Pool int
 }
 
 type rewriter struct {
@@ -266,9 +270,26 @@ func (r *rewriter) scanOwn(n ast.Node, nd *need) {
 					nd.yieldBefore, nd.why = true, "close"
 				}
 			}
-			sel, pkg, name, _, ok := r.recvType(e)
+			sel, pkg, name, isPtr, ok := r.recvType(e)
 			if !ok {
 				return true
+			}
+			if r.opt.Pool && pkg == "sync" && name == "Pool" {
+				switch {
+				case sel.Sel.Name == "Get" && len(e.Args) == 0:
+					e.Fun = &ast.SelectorExpr{X: ast.NewIdent("simrt"), Sel: ast.NewIdent("PoolGet")}
+					e.Args = []ast.Expr{addrOf(sel.X, isPtr), strLit(r.site(e.Pos()))}
+					r.counts.Pool++
+					nd.yieldBefore, nd.why = true, "pool.Get"
+					return false
+				case sel.Sel.Name == "Put" && len(e.Args) == 1:
+					r.scanOwn(e.Args[0], nd)
+					e.Fun = &ast.SelectorExpr{X: ast.NewIdent("simrt"), Sel: ast.NewIdent("PoolPut")}
+					e.Args = []ast.Expr{addrOf(sel.X, isPtr), e.Args[0], strLit(r.site(e.Pos()))}
+					r.counts.Pool++
+					nd.yieldBefore, nd.why = true, "pool.Put"
+					return false
+				}
 			}
 			switch {
 			case pkg == "sync/atomic":
@@ -456,12 +477,15 @@ func (r *rewriter) stmts(list []ast.Stmt) []ast.Stmt {
 			nd = hd
 			nd.wokeAfter = false
 			r.block(s.Body)
-			if r.loopYield && r.opt.Yield {
+			if (r.loopYield || r.opt.LoopYieldAll) && r.opt.Yield {
 				s.Body.List = append([]ast.Stmt{r.yieldStmt(pos, "loop")}, s.Body.List...)
 			}
 		case *ast.RangeStmt:
 			r.scanOwn(s.X, &nd)
 			r.block(s.Body)
+			if r.opt.LoopYieldAll && r.opt.Yield {
+				s.Body.List = append([]ast.Stmt{r.yieldStmt(pos, "loop")}, s.Body.List...)
+			}
 			if r.opt.MapOrder {
 				if ns := r.mapRange(s); ns != nil {
 					out = append(out, ns)
@@ -684,6 +708,9 @@ func (p *Package) File(path string, opt Options) ([]byte, Counts, error) {
 	}
 	src = append([]byte(hdr+"// Code generated by /verif/instrument from "+path+"; DO NOT EDIT.\n\n"), src...)
 	c := r.counts
+	if c.Pool < opt.MinPool {
+		return nil, c, fmt.Errorf("expected pool seams missing in %s (source refactored?): got %d, need >= %d", path, c.Pool, opt.MinPool)
+	}
 	if c.Lock < opt.MinLock || c.Select < opt.MinSelect || c.Go < opt.MinGo || c.Map < opt.MinMap {
 		return nil, c, fmt.Errorf("expected seams missing in %s (source refactored?): got %+v, need lock>=%d select>=%d go>=%d map>=%d", path, c, opt.MinLock, opt.MinSelect, opt.MinGo, opt.MinMap)
 	}
